@@ -1271,14 +1271,15 @@ class MindsDBParser(Parser):
         query = p.query
         query.parentheses = True
         if hasattr(p, 'id'):
-            query.alias = Identifier(parts=[p.id])
+            # the id token is the text as written: `my alias` keeps its back-quotes until it is made an identifier
+            query.alias = Identifier.from_path_str(p.id)
         if hasattr(p, 'column_list'):
             if not isinstance(query, Select):
                 raise ParsingException(f"Column aliases can be applied only to SELECT, got: {type(query).__name__}")
             for i, col in enumerate(p.column_list):
                 if i >= len(query.targets):
                     break
-                query.targets[i].alias = Identifier(parts=[col])
+                query.targets[i].alias = Identifier.from_path_str(col)
         return query
 
     # keywords for table
